@@ -26,8 +26,8 @@ Theorem session_ends_holds cf w :
   (s_hb w = true -> forall v, v = HRebalance \/ v = HUnknownMember \/ v = HIllegalGen -> s_ctx (fst (step cf w (IHeartbeat v))) = true) /\
   (* a claim ends *)
   (forall p, In (EvClaimReturn p) (snd (step cf w (IClaimReturn p))) -> s_ctx (fst (step cf w (IClaimReturn p))) = true) /\
-  (forall p b, (In (EvClaimSkip p) (snd (step cf w (IClaimGo p b))) \/ In (EvClaimFail p) (snd (step cf w (IClaimGo p b)))) ->
-               s_ctx (fst (step cf w (IClaimGo p b))) = true) /\
+  (forall p a1 a2, (In (EvClaimSkip p) (snd (step cf w (IClaimGo p a1 a2))) \/ In (EvClaimFail p) (snd (step cf w (IClaimGo p a1 a2)))) ->
+               s_ctx (fst (step cf w (IClaimGo p a1 a2))) = true) /\
   (* group closed *)
   (ending (fst (step cf w IClose)) = true /\ s_ctx (fst (step cf (fst (step cf w IClose)) IWatch)) = true) /\
   (* and in each case the phase is still PRunning with IRelease enabled *)
@@ -38,9 +38,9 @@ Proof.
   - intros Hb v [-> | [-> | ->]]; cbn; rewrite Hb; reflexivity.
   - intros p. cbn [step]. destruct (claims_live w); [|intros []]. destruct (claim_find _ _); [|intros []].
     destruct (cl_state c); try (intros []; fail). destruct (_ || _); [|intros []]. reflexivity.
-  - intros p b. cbn [step]. destruct (claims_live w); [|intros [[]|[]]]. destruct (claim_find _ _); [|intros [[]|[]]].
+  - intros p a1 a2. cbn [step]. destruct (claims_live w); [|intros [[]|[]]]. destruct (claim_find _ _); [|intros [[]|[]]].
     destruct (cl_state c); try (intros [[]|[]]; fail). destruct (ending w); [reflexivity|].
-    destruct (log_get _ _). destruct (if b then _ else _); [|reflexivity].
+    destruct (log_get _ _). destruct (claim_try _ _ _ _ _ _); [|reflexivity].
     cbn. intros [[H|[]]|[H|[]]]; discriminate H.
   - cbn. destruct (w_closed w) eqn:E; unfold ending; cbn; [now rewrite E, orb_true_r | now rewrite orb_true_r].
   - cbn [step]. destruct (w_closed w) eqn:E; cbn; rewrite Hph; cbn; [now rewrite E | reflexivity].
